@@ -114,13 +114,17 @@ def _feature_kinds(rng, m):
     return kinds
 
 
-def gen_data(rng, n, kinds, one_level_prob=0.0):
+def gen_data(rng, n, kinds, one_level_prob=0.0, huge_prob=0.0):
     X = np.zeros((n, len(kinds)))
     info = []
     for j, k in enumerate(kinds):
         if k == 'num':
             lo = rng.choice([0.0, -3.5, 100.0, -1e3])
             span = rng.choice([1.0, 4.0, 0.125, 1000.0])
+            if huge_prob and rng.random() < huge_prob:
+                # unstandardised features of huge magnitude (a Unix timestamp, a population count): still exact in float64
+                lo = rng.choice([1.7e9, -2.5e6, 0.0])
+                span = rng.choice([1000.0, 1e6, 86400.0 * 365])
             # dyadic positions (exactly representable), both ends present
             pos = [rng.randint(0, 1024) / 1024.0 for _ in range(n)]
             pos[0], pos[1] = 0.0, 1.0
@@ -160,11 +164,11 @@ def _safe_positions(rng, nrow, n_splines, order, cyclic, extrap):
 
 
 def gen_program(rng, pygam_mod, n_rows=12, n_query=8, allow_constraints=True, allow_periodic_penalty=True,
-                max_terms=4, tensor_prob=0.35, extrap=True, one_level_prob=0.0):
+                max_terms=4, tensor_prob=0.35, extrap=True, one_level_prob=0.0, huge_prob=0.0):
     from pygam.terms import SplineTerm, LinearTerm, FactorTerm, TensorTerm, Intercept, TermList
     m = rng.randint(3, 5)
     kinds = _feature_kinds(rng, m)
-    X, info = gen_data(rng, n_rows, kinds, one_level_prob)
+    X, info = gen_data(rng, n_rows, kinds, one_level_prob, huge_prob)
     num_feats = [j for j, k in enumerate(kinds) if k == 'num']
     cat_feats = [j for j, k in enumerate(kinds) if k == 'cat']
     by_feats = [j for j, k in enumerate(kinds) if k == 'by'] or num_feats
@@ -220,7 +224,15 @@ def gen_program(rng, pygam_mod, n_rows=12, n_query=8, allow_constraints=True, al
     def mk_factor():
         if not cat_feats:
             return mk_linear()
-        return FactorTerm(rng.choice(cat_feats), lam=rand_lam(), penalties=rng.choice(['auto', 'l2', None]), coding=rng.choice(['one-hot', 'dummy']))
+        # penalties of a factor term: the default ridge, none, or (non-default) difference penalties over the levels, singly
+        # or as a list with one lam each — the penalty is over the term's coefficients (one fewer under dummy coding)
+        if rng.random() < 0.3:
+            pens = [rng.choice(['auto', 'l2', 'derivative', None]) for _ in range(2)]
+            lam = [rand_lam(), rand_lam()]
+        else:
+            pens = rng.choice(['auto', 'l2', None, 'derivative'])
+            lam = rand_lam()
+        return FactorTerm(rng.choice(cat_feats), lam=lam, penalties=pens, coding=rng.choice(['one-hot', 'dummy']))
 
     def mk_tensor():
         k = rng.choice([2, 2, 3, 4])
